@@ -64,6 +64,10 @@ def run(chk):
     scs = [gen.gen_success_scenario(rng) for _ in range(N)]
     for sc in scs:
         sc['same_func'] = rng.random() < .3
+        if not sc['same_func'] and len(sc['ops']) >= 2 and rng.random() < .4:
+            # every call passes a functools.partial of the same function, bound to ITS data by a positional or a keyword argument
+            sc['func_kind'] = rng.choice(['partial', 'partial_kw'])
+            sc['pool']['keep_alive'] = True
         if rng.random() < .3:
             sc['rules'] = gen.schedule_rules(rng, sc['pool']['n_jobs'])
         if rng.random() < .5:
